@@ -78,6 +78,8 @@ def two_vms(tier, tags):
 
 
 def globals_vm(tier, tags):
-    j = job(tier, 'h_globals_vm', tags, 'Program::disassemble / getAvailableBreakpoints read the global opcode name table without modifying it', ['Theo::Program::disassemble', 'Theo::Program::getAvailableBreakpoints'])
+    # always with the quick sizes: the statement (the name table is only read) does not depend on the program size, and string building over 12
+    # instructions gave no verdict in 1800 s in the thorough configuration
+    j = job('quick', 'h_globals_vm', tags, 'Program::disassemble / getAvailableBreakpoints read the global opcode name table without modifying it', ['Theo::Program::disassemble', 'Theo::Program::getAvailableBreakpoints'])
     j.native = False
     return j
